@@ -7,7 +7,17 @@
 
 mod common;
 
+mod c03;
+mod c04;
+mod c05;
+mod c06;
 mod c12;
+mod c14;
+mod inputs;
+mod inv;
+mod pipeline;
+mod recipe_inputs;
+mod soup;
 
 use common::*;
 
@@ -20,7 +30,12 @@ type ReplayFn = fn(&str, &serde_json::Value) -> Verdict;
 
 fn dispatch(id: &str) -> Option<(fn(Tier) -> i32, ReplayFn)> {
     Some(match id {
+        "C03" => (c03::run, c03::replay),
+        "C04" => (c04::run, c04::replay),
+        "C05" => (c05::run, c05::replay),
+        "C06" => (c06::run, c06::replay),
         "C12" => (c12::run, |_p, j| c12::replay(j)),
+        "C14" => (c14::run, c14::replay),
         _ => return None,
     })
 }
